@@ -381,6 +381,61 @@ class Worker:
         os.remove(os.path.join(self.scratch, name))
         return [self._o("dek", dek, sup), ("x_dek", on_disk, sup.get("dek"))]
 
+    def setup_hab(self):
+        """full encrypted HAB container: configuration, SRK table, certificates and keys of the repository's test data"""
+        import shutil
+        src = os.path.join(self.repo, "tests", "nxpimage", "data", "hab", "export")
+        dst = os.path.join(self.scratch, "hab")
+        if not os.path.isdir(dst):
+            for n in ("rt1160_RAM_encrypted", "keys", "crts"):
+                shutil.copytree(os.path.join(src, n), os.path.join(dst, n))
+        self.hab_dir = os.path.join(dst, "rt1160_RAM_encrypted")
+        self.hab_conf = {}
+
+    def b_hab_cfg(self, spec, sup):
+        """HabContainer.load_configuration + load_from_config + export (Install Secret Key / Decrypt Data with or without user DEK / nonce)"""
+        import copy
+        import yaml
+        from spsdk.image.hab.hab_container import HabContainer
+        from spsdk.utils.misc import load_configuration
+        if getattr(self, "hab_dir", None) is None:
+            self.setup_hab()
+        wd = self.hab_dir
+        self.seq += 1
+        dek_name, nonce_name = f"gen_hab_encrypt/dek_{self.seq}.bin", f"gen_hab_encrypt/nonce_{self.seq}.bin"
+        key = ("dek" in sup, "nonce" in sup, spec["bits"])
+        if key not in self.hab_conf:
+            cfg = load_configuration(os.path.join(wd, "config_pk_simplified.yaml"))
+            for sec in cfg["sections"]:
+                if "SecretKey" in sec:
+                    sec["SecretKey"].update({"SecretKey_ReuseDek": 1 if "dek" in sup else 0, "SecretKey_Name": "@DEK@", "SecretKey_Length": spec["bits"]})
+                if "Decrypt" in sec:
+                    sec["Decrypt"].pop("Decrypt_Nonce", None)
+                    if "nonce" in sup:
+                        sec["Decrypt"]["Decrypt_Nonce"] = "@NONCE@"
+            path = os.path.join(wd, f"cfg_{len(self.hab_conf)}.yaml")
+            with open(path, "w") as fh:
+                fh.write(yaml.safe_dump(cfg))
+            self.hab_conf[key] = HabContainer.load_configuration(path, None, search_paths=[wd])
+        conf = json.loads(json.dumps(self.hab_conf[key]).replace("@DEK@", dek_name).replace("@NONCE@", nonce_name))
+        if "dek" in sup:
+            with open(os.path.join(wd, dek_name), "wb") as fh:
+                fh.write(sup["dek"])
+        if "nonce" in sup:
+            with open(os.path.join(wd, nonce_name), "wb") as fh:
+                fh.write(sup["nonce"])
+        hab = HabContainer.load_from_config(conf, search_paths=[wd])
+        data = hab.export()
+        cs = hab.csf_segment
+        with open(os.path.join(wd, dek_name), "rb") as fh:
+            on_disk = fh.read()
+        for n in (dek_name, nonce_name):
+            if os.path.exists(os.path.join(wd, n)):
+                os.remove(os.path.join(wd, n))
+        pos = data.find(cs.nonce)
+        return [self._o("dek", cs.dek, sup), self._o("nonce", cs.nonce, sup), ("x_dek", on_disk, sup.get("dek")),
+                ("x_nonce", data[pos:pos + len(cs.nonce)] if pos >= 0 else b"", sup.get("nonce"))]
+
     def b_bootimg_rt(self, spec, sup):
         from spsdk.image.images import BootImgRT
         img = BootImgRT(0x20000000)
@@ -565,6 +620,8 @@ class WorkerProc:
 
 
 MBI_FAMILIES = ["mimxrt595s", "mimxrt685s", "rt5xx", "rt6xx"]
+# the full HAB container build needs the SRK table / certificates / keys of the repository's test data
+HAB_DATA = os.path.isdir(os.path.join(os.environ.get("SPSDK_REPO", "/repo"), "tests", "nxpimage", "data", "hab", "export", "rt1160_RAM_encrypted"))
 
 
 def rhex(rng, n):
@@ -585,8 +642,8 @@ def gen_build(rng, keys):
     """One independent construction.  `keys` = a few user keys reused across builds (same KEK / HMAC key for several
     images is the normal situation and makes values *derived from user input* collide)."""
     t = rng.choices(["sb20", "sb21", "sb21_cfg", "advparams", "mbi", "mbi_cfg", "otfad", "otfad_cfg", "iee", "iee_cfg", "bee_prdb", "bee_kib",
-                     "bee_hdr", "bee_cfg", "hab_nonce", "hab_dek", "bootimg_rt", "filler", "sb1", "fill_rand"],
-                    [12, 12, 5, 6, 10, 4, 8, 2, 6, 3, 3, 3, 4, 3, 4, 4, 5, 3, 3, 2])[0]
+                     "bee_hdr", "bee_cfg", "hab_nonce", "hab_dek", "bootimg_rt", "filler", "sb1", "fill_rand", "hab_cfg"],
+                    [12, 12, 5, 6, 10, 4, 8, 2, 6, 3, 3, 3, 4, 3, 4, 4, 5, 3, 3, 2, 2 if HAB_DATA else 0])[0]
     spec = {"t": t, "sup": {}}
     sizes = {}
     if t in ("sb20", "sb21"):
@@ -644,6 +701,9 @@ def gen_build(rng, keys):
         sizes = {"dek": spec["bits"] // 8}
     elif t == "bootimg_rt":
         sizes = {"dek": 16, "nonce": 13}
+    elif t == "hab_cfg":
+        spec["bits"] = rng.choice([128, 192, 256])
+        sizes = {"dek": spec["bits"] // 8, "nonce": 13}
     elif t == "filler":
         spec["len"] = rng.choice([4, 8, 16, 32])
         sizes = {"value": spec["len"]}
@@ -819,7 +879,73 @@ def check_history(ck, s, drv, tab, hist, res, seen_global, hid, hits):
     return nd
 
 
-def run_histories(ck, s, drv, tab, w, hists, start_id=0, batch=50):
+MBI_CLS = "Mbi_MixinCtrInitVector"
+MBI_PATHS = {"setter": "ctr_init_vector.setter", "load": "mix_load_from_config", "parse": "mix_parse"}
+
+
+def parse_slots(line):
+    rows = []
+    if line and line not in ("-", "bad-op"):
+        for row in line.split(";"):
+            i, kind, cls, slot, method, role, resets, direct = row.split("|")
+            rows.append({"i": int(i), "kind": kind, "cls": cls, "slot": slot, "method": method, "role": role, "resets": resets == "1", "direct": direct == "1"})
+    return rows
+
+
+def check_reuse_model(ck, s2, drv, slots, hist, res):
+    """Object-state model (Model/FreshObj.lean over Generated.secretSlots) vs the implementation on the MBI steps of a history."""
+    if s2 is None or not any(b["t"].startswith("mbi") for b in hist):
+        return
+    inp = {"history": hist}
+    path = {k: next((r["i"] for r in slots if r["cls"] == MBI_CLS and r["method"] == m), None) for k, m in MBI_PATHS.items()}
+    steps, real, objid, uid = [], [], {}, {}
+    labels = {}
+    reuse = False
+    for bi, (spec, b) in enumerate(zip(hist, res["builds"])):
+        t = spec["t"]
+        if not t.startswith("mbi"):
+            continue
+        if b["err"] is not None:
+            return  # reported by the oracle
+        o = next((x for x in b["obs"] if x["f"] in ("ctr_init_vector", "d_ctr_init_vector")), None)
+        if o is None or o["v"] is None:
+            return
+        supv = o["sup"]
+        u = "_" if supv is None else str(uid.setdefault(supv, len(uid)))
+        if t in ("mbi", "mbi_cfg", "mbi_parse"):
+            objid[bi] = bi
+            steps.append(f"n,{bi}")
+        else:
+            if spec["reuse"] not in objid:
+                return
+            objid[bi] = objid[spec["reuse"]]
+            reuse = True
+        ob = objid[bi]
+        via = {"mbi_cfg": "load", "mbi_reload": "load", "mbi_setiv": "setter", "mbi_parse": "parse"}.get(t)
+        if t == "mbi":
+            via = None if spec["iv"] == "absent" else "setter"
+        if via is not None:
+            if path[via] is None:
+                s2.note(inp, cls="path-missing")
+                s2.compare(inp, f"{MBI_CLS}.{MBI_PATHS[via]} re-specifies the counter IV", "no such row in Generated.secretSlots",
+                           "a re-specification path exercised on the implementation is missing from the generated object-state table")
+                return
+            steps.append(f"r,{ob},{path[via]},{u}")
+        steps.append(f"e,{ob}")
+        v = o["v"]
+        if supv is not None:
+            real.append(f"1:u{uid[supv]}")
+        elif v in uid:
+            real.append(f"0:u{uid[v]}")  # a value supplied earlier (or carried by parsed data) is still there
+        else:
+            real.append(f"0:c{labels.setdefault(v, len(labels))}")
+    s2.note(inp, nontrivial=reuse, cls="re-use" if reuse else "fresh objects only")
+    if drv is not None:
+        s2.compare(inp, "/".join(real), drv.ask("objrun " + "/".join(steps)),
+                   "kept / fresh counter IV of re-used MBI builder objects differs from the object-state model run on the generated path table")
+
+
+def run_histories(ck, s, drv, tab, w, hists, start_id=0, batch=50, s2=None, slots=()):
     seen_global, hits, opaque = {}, {}, 0
     for i in range(0, len(hists), batch):
         chunk = hists[i:i + batch]
@@ -827,6 +953,7 @@ def run_histories(ck, s, drv, tab, w, hists, start_id=0, batch=50):
         out = w.ask({"cmd": "histories", "items": items})
         for h, res in zip(chunk, out):
             opaque += check_history(ck, s, drv, tab, h, res, seen_global, res["id"], hits)
+            check_reuse_model(ck, s2, drv, slots, h, res)
     return hits, opaque
 
 
@@ -905,7 +1032,7 @@ def stream_restart(ck, scratch):
 
 
 def common_setup(ck):
-    ck.lean_obligations(generated=["SecretSites"])
+    ck.lean_obligations(generated=["SecretSites", "SecretState"])
     drv = ck.driver()
     ck.assume("secrets.token_bytes / token_hex / randbelow (OS entropy) never return the same value twice - modelled as a counter (`Fresh.draw`); "
               "the quality of the OS entropy source is not examined (restart stream is partial)",
@@ -923,7 +1050,8 @@ def common_setup(ck):
 HIST_RULE = ("random histories of 2..12 independent constructions drawn from {BootImageV20/V21 with default vs explicit SBV2xAdvancedParams, "
              "BootImageV21.load_from_config (+export), SBV2xAdvancedParams, encrypted MBI through constructor (IV absent / None / given) and "
              "load_from_config (+export), OTFAD KeyBlob (+filler) and OtfadNxp.load_from_config, IeeKeyBlob / IeeNxp.load_from_config (XTS/CTR, "
-             "128/256), BEE PRDB / KIB / region header / BeeNxp.load_from_config, CsfHabSegment DEK / nonce helpers, BootImgRT.add_image, "
+             "128/256), BEE PRDB / KIB / region header / BeeNxp.load_from_config, CsfHabSegment DEK / nonce helpers, complete encrypted HAB container through HabContainer.load_configuration + load_from_config + "
+             "export (test-data SRK table / certificates), BootImgRT.add_image, "
              "load_hex_string / align_block_fill_random filler, SecureBootV1}; in ~45% of the histories a builder object that already produced an artifact is USED "
              "AGAIN for a second one (MBI: obj.load_from_config(second config) with / without export in between, obj.ctr_init_vector = None, "
              "parse(export of A) then load_from_config) with nothing / something supplied for the second artifact; each field user-supplied or defaulted at random, same KEK/HMAC key reused across builds, "
@@ -951,7 +1079,15 @@ def run(ck):
                 key = b["t"] + ("/supplied" if b["sup"] else "/self-chosen")
                 kinds[key] = kinds.get(key, 0) + 1
         ck.extra["constructions_by_type"] = dict(sorted(kinds.items()))
-        hits, opaque = run_histories(ck, s, drv, tab, w, hists)
+        s2 = ck.stream("reuse_model", "the MBI steps of the same histories (new object / re-specification through setter, mix_load_from_config, mix_parse with a "
+                       "supplied value or nothing / artifact) are replayed on the object-state model `runObj` over the generated path table "
+                       "(Generated.secretSlots): per artifact supplied-flag and value class (user value k / self-chosen value by sharing rank) must agree; "
+                       "non-trivial = the history re-uses a builder object")
+        slots = parse_slots(drv.ask("slots")) if drv is not None else []
+        ck.extra["object_state_table"] = {"rows": len(slots), "respec_direct": [f"{r['cls']}.{r['method']} resets={r['resets']}" for r in slots
+                                                                                 if r["role"] == "respec" and r["direct"]],
+                                          "kept_for_object_lifetime(lazy)": [f"{r['cls']}.{r['slot']} in {r['method']}" for r in slots if r["role"] == "lazy"]}
+        hits, opaque = run_histories(ck, s, drv, tab, w, hists, s2=s2, slots=slots)
         ck.extra["sites_exercised"] = {t["loc"] + ("<" + t["via"] if t["via"] else ""): hits.get(t["i"], 0) for t in tab
                                        if t["kind"] in ("sb1", "sb2", "mbi", "otfad", "iee", "bee", "hab", "filler")}
         ck.extra["opaque_self_chosen_values"] = opaque
@@ -963,6 +1099,8 @@ def run(ck):
 def replay(ck, data):
     drv, tab, scratch = common_setup(ck)
     s = ck.stream("histories", "replay of recorded histories; " + HIST_RULE)
+    s2 = ck.stream("reuse_model", "replay: MBI steps of the recorded histories on the object-state model")
+    slots = parse_slots(drv.ask("slots")) if drv is not None else []
     hists = []
     for c in data.get("cases", []):
         inp = c.get("input")
@@ -982,7 +1120,7 @@ def replay(ck, data):
     for group in hists:
         w = WorkerProc(scratch, patch=True, reuse=True)  # fresh process per recorded case
         try:
-            run_histories(ck, s, drv, tab, w, group)
+            run_histories(ck, s, drv, tab, w, group, s2=s2, slots=slots)
         finally:
             w.close()
 
